@@ -388,18 +388,18 @@ def shrink_case(root, pid, case_text, name, budget=150):
 # ------------------------------------------------------------------------------------------------ property table
 # profile mix, number of generated cases (quick, thorough), the monitors that speak for the property
 PROPS = {
-    'C01': dict(profiles=['valid', 'valid', 'hostile', 'faults'], n=(3000, 120000), large=['large', 'steered']),
+    'C01': dict(profiles=['valid', 'valid', 'hostile', 'faults'], n=(3000, 120000), large=['large', 'steered', 'huge']),
     'C02': dict(profiles=['valid', 'hostile', 'faults'], n=(3000, 120000), large=['large', 'steered', 'steered_faults']),
-    'C03': dict(profiles=['valid', 'hostile', 'faults', 'faults_hostile'], n=(3000, 120000), large=['large', 'large_faults', 'steered', 'steered_faults']),
-    'C05': dict(profiles=['faults', 'faults_hostile'], n=(3000, 120000), large=['large_faults', 'steered_faults']),
-    'C06': dict(profiles=['hostile', 'faults_hostile'], n=(3000, 100000), large=['large', 'large_faults', 'steered']),
+    'C03': dict(profiles=['valid', 'hostile', 'faults', 'faults_hostile'], n=(3000, 120000), large=['large', 'large_faults', 'steered', 'steered_faults', 'huge', 'huge_faults']),
+    'C05': dict(profiles=['faults', 'faults_hostile'], n=(3000, 120000), large=['large_faults', 'steered_faults', 'huge_faults']),
+    'C06': dict(profiles=['hostile', 'faults_hostile'], n=(3000, 100000), large=['large', 'large_faults', 'steered', 'huge', 'huge_faults']),
     'C07': dict(profiles=['hostile', 'hostile', 'valid'], n=(3000, 100000), large=['large']),
     'C08': dict(profiles=['valid', 'hostile'], n=(2000, 80000), large=['large', 'steered']),
-    'C09': dict(profiles=['valid', 'hostile', 'faults'], n=(3000, 90000), large=['large', 'steered']),
+    'C09': dict(profiles=['valid', 'hostile', 'faults'], n=(3000, 90000), large=['large', 'steered', 'huge']),
     'C10': dict(profiles=['valid', 'hostile', 'faults'], n=(2000, 80000), large=['large', 'steered']),
-    'C11': dict(profiles=['valid', 'hostile', 'faults'], n=(3000, 90000), large=['large', 'steered']),
-    'C12': dict(profiles=['valid', 'hostile', 'faults'], n=(3000, 90000), large=['large', 'steered']),
-    'C13': dict(profiles=['valid', 'hostile', 'faults'], n=(2000, 80000), large=['large', 'steered']),
+    'C11': dict(profiles=['valid', 'hostile', 'faults'], n=(3000, 90000), large=['large', 'steered', 'huge']),
+    'C12': dict(profiles=['valid', 'hostile', 'faults'], n=(3000, 90000), large=['large', 'steered', 'huge']),
+    'C13': dict(profiles=['valid', 'hostile', 'faults'], n=(2000, 80000), large=['large', 'steered', 'huge']),
     'C15': dict(profiles=['valid', 'hostile', 'faults'], n=(1500, 60000), large=['steered']),
     'C17': dict(profiles=['valid', 'hostile'], n=(1500, 60000), large=['large']),
     'C18': dict(profiles=['hostile', 'faults'], n=(3000, 100000), large=['large', 'steered', 'steered_faults']),
@@ -477,9 +477,39 @@ def run_cases(root, case_text, timeout):
     mtxt = itxt = None
     md = os.path.join(cache, 'model', 'model_driver')
     if os.path.exists(md):
-        rc, mtxt = sh([md, cf], timeout)
-        if rc != 0:
-            errs.append('model driver exit %d: %s' % (rc, mtxt[-300:])); mtxt = None
+        # the extracted model recurses over lists (a megabyte of text is a million cells): no stack limit; big inputs are
+        # split over several processes, case by case
+        if len(case_text) > (4 << 20):
+            import concurrent.futures
+            cases, order = split_cases(case_text)
+            nsh = min(16, max(1, len(order)))
+            shards = [''.join(cases[c] for c in order[k::nsh]) for k in range(nsh)]
+            def one(k):
+                f = cf + '.m%d' % k
+                open(f, 'w').write(shards[k])
+                r = sh('ulimit -s unlimited; exec %s %s' % (md, f), timeout)
+                os.remove(f)
+                return r
+            with concurrent.futures.ThreadPoolExecutor(nsh) as ex:
+                rs = list(ex.map(one, range(nsh)))
+            bad = [r for r in rs if r[0] != 0]
+            if bad:
+                errs.append('model driver exit %d: %s' % (bad[0][0], bad[0][1][-300:])); mtxt = None
+            else:
+                # back into the order of the input (the traces are compared case by case anyway)
+                per = {}
+                for r in rs:
+                    cur = None
+                    for line in r[1].splitlines(True):
+                        parts = line.split(' ', 2)
+                        if len(parts) >= 2 and parts[0] in ('R', 'E', 'M', 'X', 'P'):
+                            cur = parts[1].strip()
+                        per.setdefault(cur, []).append(line)
+                mtxt = ''.join(''.join(per.get(c, [])) for c in order)
+        else:
+            rc, mtxt = sh('ulimit -s unlimited; exec %s %s' % (md, cf), timeout)
+            if rc != 0:
+                errs.append('model driver exit %d: %s' % (rc, mtxt[-300:])); mtxt = None
     rn = os.path.join(cache, 'harness-target', 'release', 'runner')
     if os.path.exists(rn):
         rc, itxt = sh([rn, cf], timeout)
@@ -723,10 +753,11 @@ def decide(root, pid, tier, seed, replay=None):
                     done += c; start += c
                     if len(res.violations) >= 5:
                         break
-            # extra passes: texts and capacities of a page or more (few operations each), and steered histories (sharers of
+            # extra passes: texts and capacities of a page or more (few operations each), of 100 KiB .. 3 MiB (a handful of
+            # cases), and steered histories (sharers of
             # different lengths, appends into reserved room with exact size hints, refused reservations on sharers)
             for li, prof in enumerate(cfg.get('large', [])):
-                nl = 240 if tier == 'quick' else 4000
+                nl = (16 if tier == 'quick' else 300) if prof.startswith('huge') else (240 if tier == 'quick' else 4000)
                 explore(root, pid, res, gen_text(root, seed * 1000 + 70 + li, nl, prof, 8 * 10 ** 6 + li * 10 ** 5), '%s_s%d' % (prof, seed), stats)
     if pid == 'C12' and not replay and st['harness']['ok']:
         # (without a model — e.g. the translator rejected the source — the loops are still checked against the property's bounds)
@@ -748,7 +779,7 @@ def decide(root, pid, tier, seed, replay=None):
             for pi, prof in enumerate(cfg['profiles']):
                 explore(root, pid, res, gen_text(root, (seed + 7919 * (extra + 1)) * 1000 + pi, 3000, prof, 10 ** 6 * (extra + 1)), 'search%d_%s' % (extra, prof), stats)
             for li, prof in enumerate(cfg.get('large', [])):
-                explore(root, pid, res, gen_text(root, (seed + 7919 * (extra + 1)) * 1000 + 70 + li, 1500, prof, 10 ** 6 * (extra + 1) + 5 * 10 ** 5 + li * 10 ** 5),
+                explore(root, pid, res, gen_text(root, (seed + 7919 * (extra + 1)) * 1000 + 70 + li, 48 if prof.startswith('huge') else 1500, prof, 10 ** 6 * (extra + 1) + 5 * 10 ** 5 + li * 10 ** 5),
                         'search%d_%s' % (extra, prof), stats)
             if res.violations:
                 break
